@@ -60,3 +60,23 @@ Definition sem (k : key) (v : evault) : option (plain * list (id * (plain * plai
   | _, _ => None
   end.
 End ChangePassword.
+
+(* ---- the identity vault as a key store (login/src/identity_folder.rs): secrets tagged with a URN
+   (urn:sos:vault:<folder id> -> that folder's password).  save_folder_password APPENDS a secret and never
+   removes the previous one for that URN; the lookup index is built by walking the vault in insertion
+   order and letting a later entry overwrite an earlier one.  change_account_password re-encrypts the
+   entries in order (change_password above). *)
+Section IdentityKeys.
+Variables urn kval : Type.
+Variable urn_eqb : urn -> urn -> bool.
+Definition id_lookup (l : list (urn * kval)) (u : urn) : option kval :=
+  fold_left (fun acc e => if urn_eqb (fst e) u then Some (snd e) else acc) l None.
+Definition id_save (l : list (urn * kval)) (u : urn) (k : kval) : list (urn * kval) := l ++ [(u, k)].
+(* a rebuild that keeps only the FIRST entry per URN: not what the code does; the witness that order matters *)
+Fixpoint dedupe_first (seen : list urn) (l : list (urn * kval)) : list (urn * kval) :=
+  match l with
+  | [] => []
+  | (u, k) :: r => if existsb (urn_eqb u) seen then dedupe_first seen r else (u, k) :: dedupe_first (u :: seen) r
+  end.
+End IdentityKeys.
+
